@@ -7,6 +7,8 @@ import (
 	"go/types"
 	"math/big"
 	"strings"
+
+	"golang.org/x/tools/go/ssa"
 )
 
 type cenv struct {
@@ -106,6 +108,20 @@ func (ev *cenv) lookupIdent(name string) *Val {
 	return nil
 }
 
+// fnHasLocal reports whether the source of fn declares a local variable called name.
+func fnHasLocal(fn *ssa.Function, name string) bool {
+	for _, b := range fn.Blocks {
+		for _, in := range b.Instrs {
+			if d, ok := in.(*ssa.DebugRef); ok {
+				if o := d.Object(); o != nil && o.Name() == name {
+					return true
+				}
+			}
+		}
+	}
+	return false
+}
+
 func (ev *cenv) objVal(o types.Object) *Val {
 	switch x := o.(type) {
 	case *types.Const:
@@ -142,6 +158,10 @@ func (ev *cenv) eval(e *CExpr) *Val {
 			ev.fail("result not available here")
 		}
 		v := ev.lookupIdent(e.Name)
+		if v == nil && ev.fc != nil && ev.fc.fn != nil && fnHasLocal(ev.fc.fn, e.Name) {
+			// a local of this function that is not defined on this path (yet)
+			return missingVal()
+		}
 		if v == nil {
 			ev.fail("unknown identifier %q", e.Name)
 		}
@@ -779,6 +799,9 @@ func (ev *cenv) call(e *CExpr) *Val {
 			p := x.S
 			if x.F != nil {
 				p = x.F[0].S
+				if x.T != nil && types.IsInterface(x.T) && len(x.F) == 2 {
+					p = x.F[1].S // (tag, val): the dynamic value is the pointer
+				}
 			}
 			if ev.oldAlloc == "" {
 				ev.fail("fresh() not available here")
@@ -789,6 +812,9 @@ func (ev *cenv) call(e *CExpr) *Val {
 			p := x.S
 			if x.F != nil {
 				p = x.F[0].S
+				if x.T != nil && types.IsInterface(x.T) && len(x.F) == 2 {
+					p = x.F[1].S // (tag, val): the dynamic value is the pointer
+				}
 			}
 			return boolVal(sx("select", ev.alloc(), p))
 		case "wasallocated":
@@ -796,6 +822,9 @@ func (ev *cenv) call(e *CExpr) *Val {
 			p := x.S
 			if x.F != nil {
 				p = x.F[0].S
+				if x.T != nil && types.IsInterface(x.T) && len(x.F) == 2 {
+					p = x.F[1].S // (tag, val): the dynamic value is the pointer
+				}
 			}
 			return boolVal(sx("select", ev.oldAlloc, p))
 		case "ite":
@@ -885,6 +914,59 @@ func (ev *cenv) call(e *CExpr) *Val {
 				return x
 			}
 			return &Val{T: T, S: x.S, Sort: x.Sort}
+		case "iter_calls", "iter_arg", "iter_ret", "iter_atcall":
+			// the call log of the current loop iteration only
+			start := 0
+			if ev.st != nil && ev.st.loopLog != nil {
+				var lo int
+				fmt.Sscanf(ev.st.ghost["curloop"], "%d", &lo)
+				start = ev.st.loopLog[lo]
+			}
+			label := args[0].String()
+			var evs []CallEvent
+			if ev.st != nil {
+				for pi, c := range ev.st.log {
+					if pi >= start && (c.Label == label || strings.HasSuffix(c.Label, "."+label)) {
+						evs = append(evs, c)
+					}
+				}
+			}
+			switch fn.Name {
+			case "iter_atcall":
+				k := ev.constInt(args[1])
+				if k >= len(evs) {
+					return missingVal()
+				}
+				sub := *ev
+				sub.heap = evs[k].Heap
+				return sub.eval(args[2])
+			case "iter_calls":
+				return intVal(intLit(int64(len(evs))))
+			case "iter_arg":
+				k, i := ev.constInt(args[1]), ev.constInt(args[2])
+				if k >= len(evs) || i >= len(evs[k].Args) {
+					return missingVal()
+				}
+				return evs[k].Args[i]
+			default:
+				k := ev.constInt(args[1])
+				if k >= len(evs) || evs[k].Res == nil {
+					return missingVal()
+				}
+				if len(args) == 3 {
+					return evs[k].Res.F[ev.constInt(args[2])]
+				}
+				return evs[k].Res
+			}
+		case "lastret":
+			evs := ev.events(args[0])
+			if len(evs) == 0 || evs[len(evs)-1].Res == nil {
+				return missingVal()
+			}
+			if len(args) == 2 {
+				return evs[len(evs)-1].Res.F[ev.constInt(args[1])]
+			}
+			return evs[len(evs)-1].Res
 		case "callpos":
 			// position of the k-th call with this label in the path's call log (-1: no such call)
 			label := args[0].String()
@@ -1169,7 +1251,7 @@ func usesCallLog(e *CExpr) bool {
 	}
 	if e.Op == "call" && e.Args[0].Op == "ident" {
 		switch e.Args[0].Name {
-		case "calls", "arg", "ret", "atcall", "aftercall", "callpos", "atlock", "visited":
+		case "calls", "arg", "ret", "atcall", "aftercall", "callpos", "atlock", "visited", "lastret", "iter_calls", "iter_arg", "iter_ret", "iter_atcall":
 			return true
 		}
 	}
